@@ -583,6 +583,16 @@ def run(ctx):
             out += "{" + nm_ + "}"
         return out.strip()
 
+    # a component is written whenever it is SET: `DT0`, registry number 0 and an empty external registry are components (tested with
+    # `is not None`, not by their truth)
+    comp_ifs = [i_ for i_ in ast.walk(ks) if isinstance(i_, ast.If) and any(isinstance(x, ast.JoinedStr) for b_ in i_.body for x in ast.walk(b_))]
+    by_truth = [ast.unparse(i_.test) for i_ in comp_ifs
+                if not (isinstance(i_.test, ast.Compare) and len(i_.test.ops) == 1 and isinstance(i_.test.ops[0], ast.IsNot)
+                        and isinstance(i_.test.comparators[0], ast.Constant) and i_.test.comparators[0].value is None)]
+    if comp_ifs:
+        ctx.ob("R5.key-components", SDF, "Metadata.Key.serialize", f"{len(comp_ifs)} component test(s): `is not None`", not by_truth,
+               f"the component test(s) {by_truth} go by the truth of the value: a key `> DT0` (or with registry number 0) is written without that "
+               "component and reads back as another key", ks.lineno)
     jss = [n for n in ast.walk(ks) if isinstance(n, ast.JoinedStr)]
     ctx.need(bool(jss), "the components of Metadata.Key.serialize written as f-strings (templates applied through str.format in a "
                         "comprehension cannot be decided here)")
